@@ -140,6 +140,11 @@ impl State for FileState {
                 .with_error_context(|error| format!("{FILE_STATE_PARSE_ERROR} index. {error}"))
                 .map_err(|_| IggyError::InvalidNumberEncoding)?;
             total_size += 8;
+            if entries_count == 0 && index != 0 {
+                error!("State file is corrupted, expected first index: 0, got: {index}");
+                return Err(IggyError::StateFileCorrupted);
+            }
+
             if entries_count > 0 && index != current_index + 1 {
                 error!(
                     "State file is corrupted, expected index: {}, got: {}",
